@@ -172,7 +172,8 @@ fn c06_param_db_step() {
 	kani::cover!(finished && sel == 6, "w:finish");
 }
 
-// @h prop=C06 tier=thorough kind=main timeout=1700
+// @h prop=C06 tier=experimental kind=main timeout=1700
+// @note no answer in 1700 s (a bound through an f32 multiplier with two symbolic operands): NOT decided, never run
 // @bounds T=Decibels(f32), Linear, the fade range [-60,0] and any |v|<=200; amount in [0,1]: value within [min,max] widened by one f32 ulp of the larger magnitude
 // @funcs <f32 as Tweenable>::interpolate
 // @catches extrapolation (amount not clamped / wrong sign), overshoot beyond rounding
